@@ -1,7 +1,7 @@
 (* Prop_C07.v — property C07 (nitrogen pools stay non-negative, organic/fertiliser bookkeeping is exact),
    stated about NitroModel read over the reals. *)
 From Coq Require Import ZArith Reals List Bool Lra.
-From Hermes Require Import Num RUtil NitroModel NitroProofs NitroRun NitroRates.
+From Hermes Require Import Num RUtil NitroModel NitroProofs NitroRun NitroRates SoilTempModel SoilTempProofs CrossC07C19.
 Local Open Scope R_scope.
 
 (* what mineralisation removes from an organic pool is exactly what its counter gains (both temperature
@@ -33,6 +33,22 @@ Theorem C07_pools_nonneg_true_exp : forall z (l : mineral_layer_in (T:=R)) (g : 
   ml_e0 l = exp (-8400 / (ml_tempbo l + 273.16)) -> ml_e1 l = exp (-9800 / (ml_tempbo l + 273.16)) ->
   let '(o, g') := mineral_layer z l g in 0 <= mo_naos o /\ 0 <= mo_nfos o.
 Proof. exact pools_nonneg_true_exp. Qed.
+
+(* composed with C19: in any run whose imposed surface values, TBASE and start profile lie in [lo, hi] with
+   -273 < lo and hi <= 60 degC, the temperature mineral() uses for layer z on the run's last day (hence, the list of
+   days being arbitrary, on EVERY day), (TD[z] + TD[z-1]) / 2, gives rate constants in [0, 1]: the hypothesis of
+   C07_pools_nonneg holds throughout the run *)
+Theorem C07_rates_bounded_in_run : forall (days : list (day_in R)) (t0 : list R) (tbase lo hi : R),
+  Forall (fun d => alphas_ok d /\ d_tbase d = tbase) days ->
+  within lo hi t0 -> lo <= tbase <= hi ->
+  within lo hi (snd (run days t0)) ->
+  -273 < lo -> hi <= 60 ->
+  let td := fst (run days t0) in
+  forall z, (1 <= z)%nat -> (z < length td)%nat ->
+    let tb := (nth z td 0 + nth (z - 1) td 0) / 2 in
+    0 <= 4000000000 * exp (-8400 / (tb + 273.16)) <= 1 /\
+    0 <= 5600000000000 * exp (-9800 / (tb + 273.16)) <= 1.
+Proof. exact rates_bounded_in_run. Qed.
 
 Theorem C07_rate_above_one_at_65 : 1 < 5600000000000 * exp (-9800 / (65 + 273.16)).
 Proof. exact kt1_true_gt_1_at_65. Qed.
@@ -90,6 +106,7 @@ Print Assumptions C07_tillage_mixing_conserves.
 Print Assumptions C07_pools_nonneg.
 Print Assumptions C07_pools_nonneg_true_exp.
 Print Assumptions C07_rate_above_one_at_65.
+Print Assumptions C07_rates_bounded_in_run.
 Print Assumptions C07_dissolved_le_applied.
 Print Assumptions C07_dissolved_le_applied_frozen.
 Print Assumptions C07_dissolved_le_applied_run.
